@@ -146,6 +146,27 @@ def run(tier='quick', repo=None):
         rep.add('R-frozen', '%s:inner-controlled-before-thaw' % fn.name, VIOLATED if bad else HOLDS, fn.loc,
                 **({'what': 'the inner (remote) pipe is entered at line %s after upipe_bin_thaw at line %s: the worker thread runs again and both threads are inside the pipe' % (
                     bad[0][1][2].get('l'), bad[0][0][2].get('l'))} if bad else {}))
+    # the flag that the rules above rely on says the truth: `frozen = true` is written only after the freeze succeeded
+    # (no error return of the freeze call can be reached with the flag already set), `frozen = false` only with the thaw
+    nflag = 0
+    for fn in sorted(w.funcs.values(), key=lambda f: f.name):
+        if not fn.inmain or not fn.blocks:
+            continue
+        ev = pr.Events(fn)
+        sets = [p_ for p_ in ev.find(pr.m_store('frozen')) if is_assign(p_[2]) and const_of(strip_all_casts(fn.resolve(p_[2]['rhs']))) == 1]
+        if not sets:
+            continue
+        nflag += 1
+        frz = pr.m_call(r'upipe_xfer_mgr_freeze')
+        why_ = []
+        if not ev.find(frz):
+            why_.append('frozen is set in a function that does not freeze the transfer manager')
+        elif pr.must_precede(ev, frz, lambda n_: any(n_ is p_[2] for p_ in sets)):
+            why_.append('frozen is set to true on a path that has not called upipe_xfer_mgr_freeze yet: if the freeze is then refused (a transfer manager without '
+                        'mutex) the flag stays set and every later command enters the remote pipe from the application thread while its loop runs')
+        rep.add('R-frozen', '%s:flag-after-freeze' % fn.name, VIOLATED if why_ else HOLDS, fn.loc, **({'what': '; '.join(why_)} if why_ else {}))
+    if nflag < 1:
+        raise facts.AnalysisBroken('no function of upipe_worker.c sets the frozen flag')
     if ngetters < 2:
         raise facts.AnalysisBroken('upipe_xfer_get_remote callers not found in upipe_worker.c')
     # ---- R-queue ----------------------------------------------------------------------
@@ -165,6 +186,28 @@ def run(tier='quick', repo=None):
     ok = ok and bool(tests) and all(any(t in dom.get(p[0], ()) for t in tests) for p in ev.find(data))
     rep.add('R-queue', 'upipe_qsink_input:flow-def-before-data', HOLDS if ok else VIOLATED, fn.loc,
             **({} if ok else {'what': 'a buffer can be queued without the flow definition having been queued first (flow_def_sent)'}))
+    # ... and whether the definition is queued depends on nothing but "not sent yet" and "there is one" (and the allocation of
+    # its copy): in particular not on the queue being writable - a buffer parked while the queue is full is replayed by the
+    # watcher without coming back through this function, so its definition must already be in front of it
+    allowed = ('flow_def_sent', 'flow_def')
+    okc, whyc = True, ''
+    for sc in ev.find(self_call):
+        for d_ in dom.get(sc[0], ()):
+            c_ = fn.cond(d_)
+            if not c_ or d_ == sc[0]:
+                continue
+            arm_dom = [a_ for a_ in (c_[1], c_[2]) if a_ is not None and a_ in dom.get(sc[0], ()) and a_ != d_]
+            if len(arm_dom) != 1:
+                continue          # not a guard of the call
+            tree = fn.resolve(c_[0])
+            names = {y.get('f') for y in walk(tree) if isinstance(y, dict) and y.get('k') == 'mem'} | \
+                    {y.get('fn') for y in walk(tree) if isinstance(y, dict) and y.get('k') == 'call' and y.get('fn') not in ('__builtin_expect', 'uref_dup')}
+            names |= {y.get('f') for x_ in walk(tree) if isinstance(x_, dict) and x_.get('k') == 'ext' for y in walk(fn.resolve(x_)) if isinstance(y, dict) and y.get('k') == 'mem'}
+            extra = {n_ for n_ in names if n_ and n_ not in allowed}
+            if extra:
+                okc, whyc = False, 'the in-band flow definition is queued only if %s as well (line %s)' % (sorted(extra), (fn.blocks[d_].get('term') or {}).get('l'))
+    rep.add('R-queue', 'upipe_qsink_input:flow-def-unconditional', HOLDS if okc else VIOLATED, fn.loc,
+            **({} if okc else {'what': whyc + ': a buffer input while that condition does not hold crosses the queue without its flow definition in front'}))
     # full queue with a possible watcher => held, not freed
     frees = ev.find(pr.m_call('uref_free'))
 
